@@ -414,3 +414,18 @@ Proof.
     + replace (M + p + ss <=? hi) with false by (unfold hi; lia). reflexivity.
 Qed.
 End Img.
+
+(* ---------- top level: abi_decode through either implementation = the acceptance model ---------- *)
+Theorem impl_refines_model : forall I M stale t payload,
+  0 <= M -> M + zlen payload + 32 <= MEMLIM -> bytes_ok payload -> (forall a, 0 <= stale a < 256) ->
+  wf_ty t = true -> small_ty t = true -> scalar_like t = false ->
+  abi_decode_impl I M stale t payload = accept_mem t payload.
+Proof.
+  intros I M stale t payload HM HML Hb Hst Hwf Hsm Hsc. unfold abi_decode_impl, accept_mem. cbn zeta.
+  destruct ((static_size t <=? zlen payload) && (zlen payload <=? size_bound t)); [|reflexivity].
+  pose proof (idec_refines I M payload stale HM HML Hb Hst t Hwf Hsm 0 ltac:(lia)) as R.
+  rewrite Z.add_0_r in R. rewrite R.
+  - reflexivity.
+  - pose proof (zlen_nonneg payload). lia.
+  - rewrite Hsc. discriminate.
+Qed.
